@@ -564,3 +564,64 @@ func TestKF_sparse_mdotm_shared_scalars(t *testing.T) {
 	got := fmt.Sprint(r.Float64At(0, 0), r.Float64At(0, 1), r.Float64At(1, 0), r.Float64At(1, 1))
 	obs.KFStatus("C08/sparse-mdotm-operand-shares-scalars-with-receiver", p == "" && got != "0 2 3 4", "r.MdotM(r.T().T(), I) on [[_,2],[3,4]] = "+got+" panic="+p)
 }
+
+// MdotM where the receiver and the right factor are different, overlapping row windows of one
+// parent (they share storage without being the same view); the left factor is independent or is
+// the right factor's view.
+func TestC08_mdotm_overlapping_slices(t *testing.T) {
+	rapid.Check(t, func(t *rapid.T) {
+		st := drawContainerType(t)
+		dm := gen.DrawDerivMode(t, "dm", st)
+		n := rapid.IntRange(1, 4).Draw(t, "n")
+		extra := rapid.IntRange(1, 3).Draw(t, "extraRows")
+		r0 := rapid.IntRange(0, extra).Draw(t, "r0")
+		b0 := rapid.IntRange(0, extra).Draw(t, "b0")
+		leftIsB := rapid.Bool().Draw(t, "leftIsRightFactor")
+		parent := gen.DrawMat(t, "parent", st, false, n+extra, n, dm, false)
+		a := gen.DrawMat(t, "a", st, false, n, n, dm, false)
+		c := obs.Begin("mdotm_overlapping_slices", "parent=%s r=rows[%d,%d) b=rows[%d,%d) leftIsB=%v a=%s", parent, r0, r0+n, b0, b0+n, leftIsB, a)
+		c.Classf("shift=%d", b0-r0)
+		c.Classf("left factor is the right factor's view=%v", leftIsB)
+		c.NT(r0 != b0 && n >= 2)
+		window := func(m Matrix, from int) Matrix { return m.Slice(from, from+n, 0, n) }
+		deep := func(from int) Matrix {
+			w := NullDenseMatrix(st.T, n, n)
+			for i := 0; i < n; i++ {
+				for j := 0; j < n; j++ {
+					w.At(i, j).Set(parent.At(from+i, j).Scalar(st))
+				}
+			}
+			return w
+		}
+		// reference on independent copies
+		ref := NullDenseMatrix(st.T, n, n)
+		rb := deep(b0)
+		var ra ConstMatrix = a.Build()
+		if leftIsB {
+			ra = deep(b0)
+		}
+		pRef := call(func() { ref.MdotM(ra, rb) })
+		// overlapping run
+		pm := parent.Build()
+		r, b := window(pm, r0), window(pm, b0)
+		var la ConstMatrix = a.Build()
+		if leftIsB {
+			la = b
+		}
+		pGot := call(func() { r.MdotM(la, b) })
+		if pRef != "" {
+			t.Fatalf("%s: reference call panicked: %s", c.Desc(), pRef)
+		}
+		if pGot != "" {
+			c.Class("overlap rejected by panic")
+			c.End()
+			return
+		}
+		ws, _ := model.ObsMatrix(ref)
+		gs, _ := model.ObsMatrix(r)
+		if ws.Canon() != gs.Canon() {
+			t.Fatalf("%s: receiver window %v differs from the product on independent copies %v", c.Desc(), gs, ws)
+		}
+		c.End()
+	})
+}
